@@ -20,6 +20,13 @@ CHECKS = {
          "evaluating soundness and completeness against the specification in Coq.", "DESIGN.md §7 C02, notes/C02.md",
          "The implementation's decomposition (literals, pre/post, validator kind) is read through hook verif_describe_strings "
          "and is an input of the model; regex-automata enters by contract. Open finding C02-start-position."),
+ "C03": ("proof", "Same Coq development as C02 (atomized path sound/complete for any decomposition, greedy matcher sound "
+         "unconditionally, raw path exact) plus widen_correct (ordered-list equality for every HIR without word boundaries); "
+         "correspondence: for ~900 generated regexes x modifier subsets, full match lists and `matches` verdicts equal the model "
+         "run on the implementation's own decomposition (hook) and the reference semantics.", "DESIGN.md §7 C03, notes/C03.md",
+         "regex-automata / regex-syntax / the HIR printer enter by contract; wide, fullword and word-boundary runners are covered "
+         "by the correspondence and widen_correct only. Open findings C03-start-position, C03-alt-glue, "
+         "C03-fullword-single-length, C03-wide-boundary-rev-context."),
  "C04": ("proof", "C04_eval_eq_sem: for every well-formed condition, selected string and identifier stack, the evaluator model "
          "(early exits, accumulators, clamps, occurrence indexes, bound identifiers) equals the declarative three-valued "
          "semantics; rule verdict and totality corollaries; correspondence on rule verdicts and on integer sub-expression values "
@@ -119,7 +126,6 @@ CHECKS = {
 }
 
 PENDING = {
- "C03": "check under construction (regex strings / matches operator: Spec/Regex.v exists, property module not yet registered)",
 }
 
 
